@@ -184,10 +184,27 @@ def c02_const_truth():
     return out
 
 
+def c02_operand_kinds():
+    """Operators applied directly to REGISTER operands of every class and width (the operand's type comes from its token: R/C/M
+    32 bit signed, P 8 bit, pairs 64 bit, aliases unsigned): shifts, arithmetic, comparisons against a 64-bit partner."""
+    out = []
+    regs = ["RsV", "CsV", "MsV", "PsV", "NsN", "RssV", "CssV", "C1", "C1:0", "R3:2", "M1", "P2", "HEX_REG_ALIAS_USR", "HEX_REG_ALIAS_UPCYCLE"]
+    for r_ in regs:
+        wide = r_ in ("RssV", "CssV", "C1:0", "R3:2", "HEX_REG_ALIAS_UPCYCLE")
+        for e in (f"{r_} >> 8", f"{r_} >> {33 if wide else 17}", f"{r_} + RttV", f"{r_} * RttV", f"{r_} < RttV", f"RttV > {r_}", f"-{r_}", f"~{r_}",
+                  f"{r_} << 28", f"({r_} >> 4) ^ RttV", f"(RuV > 0) ? {r_} : RttV", f"{r_} < 0", f"!{r_}", f"{r_} && RttV"):
+            out.append(f"{{ RddV = {e}; }}")
+    for d_, s_ in (("CddV", "RssV"), ("CdV", "RssV"), ("CddV", "RsV"), ("MdV", "RssV"), ("PdV", "RssV"), ("RddV", "CssV")):
+        out.append(f"{{ {d_} = {s_}; }}")
+        out.append(f"{{ {d_} = {s_} >> 3; }}")
+        out.append(f"{{ {d_} = {s_}; RxxV = {d_}; }}")
+    return out
+
+
 def c02(tier):
     rng = random.Random(seed() * 7919 + 2)
     nr = c02_narrow()
-    return c02_depth1() + c02_const_sides() + c02_const_truth() + c02_spellings() + c02_param_calls() + (nr if tier == "thorough" else nr[::3]) + c02_depth2(tier, rng) + c02_random(tier, rng)
+    return c02_operand_kinds() + c02_depth1() + c02_const_sides() + c02_const_truth() + c02_spellings() + c02_param_calls() + (nr if tier == "thorough" else nr[::3]) + c02_depth2(tier, rng) + c02_random(tier, rng)
 
 
 def wf_subs():
@@ -620,6 +637,14 @@ def c06(tier):
         f"{{ {C06_PRE} n++; n++; m--; {C06_POST} }}",
         f"{{ {C06_PRE} RyV = n++; RyV = RyV + n++; {C06_POST} }}",
     ]
+    # value-producing operations of every width as operand of every SINK (jump target, store address / value, predicate, pair,
+    # alias and call-argument destinations): the operation runs after the statements before it and before the sink reads it
+    for ty, src in (("int8_t", "RsV"), ("uint16_t", "RsV"), ("int32_t", "RsV"), ("int64_t", "RssV"), ("uint64_t", "RssV")):
+        for h in ("a++", "a--", "({ a = a + 3; a; })", "(a++ + 1)"):
+            for sink in (f"JUMP({h});", f"mem_store_u32({h}, RtV);", f"mem_store_u64(RtV, {h});", f"mem_store_u8(RtV, {h});",
+                         f"PeV = {h};", f"RyyV = {h};", f"RyV = clz32({h});", f"HEX_REG_ALIAS_LR = {h};",
+                         f"if (RuV) {{ JUMP({h}); }}"):
+                out.append(f"{{ {ty} a = {src}; RxV = 1; {sink} RzV = RzV + a; }}")
     return out
 
 
@@ -725,6 +750,12 @@ def c08_subs():
         # names with upper-case letters (definition and call site must agree on the C identifier)
         "vf_SatAdd8": dict(return_type="int32_t", params=["int32_t a", "int32_t b"], code="{ if (a + b > 127) { return 127; } else { return a + b; } }"),
         "VF_UPPER": dict(return_type="uint16_t", params=["uint16_t a"], code="{ return vf_SatAdd8(a, 1) + 2; }"),
+        # two sub-routines whose names differ only in the case of their letters; the upper-case one keeps a temporary live across
+        # its call of the lower-case one (temporaries of different C functions must not share a name)
+        "vf_case": dict(return_type="int32_t", params=["int32_t a"],
+                        code="{ int32_t vf_case_s = a; int32_t vf_case_r = vf_case_s++; return vf_case_r + vf_case_s; }"),
+        "VF_CASE": dict(return_type="int32_t", params=["int32_t b"],
+                        code="{ int32_t vf_CASE_o = b; return vf_CASE_o++ + vf_case(b + 10); }"),
         "vf_loop": dict(return_type="uint32_t", params=["uint32_t a"],
                         code="{ uint32_t vf_loop_s = 0; int vf_loop_i; for (vf_loop_i = 0; vf_loop_i < 3; vf_loop_i++) { vf_loop_s = vf_loop_s * 2 + a; } return vf_loop_s; }"),
     })
@@ -733,7 +764,7 @@ def c08_subs():
 
 C08_PRE = "int32_t n = RsV; int32_t m = RtV; RyV = n;"
 C08_POST = "RyV = RyV * 3 + n; RzV = RzV ^ m;"
-C08_CALLS = ["vf_SatAdd8(n, m)", "VF_UPPER(n)", "vf_br(n, m)", "vf_early(n)", "vf_post(n)", "vf_nest(n)", "vf_nest2(n, m)", "vf_loc(m)", "vf_narrow(n)",
+C08_CALLS = ["vf_SatAdd8(n, m)", "VF_UPPER(n)", "VF_CASE(n)", "vf_case(m)", "vf_br(n, m)", "vf_early(n)", "vf_post(n)", "vf_nest(n)", "vf_nest2(n, m)", "vf_loc(m)", "vf_narrow(n)",
              "vf_wide(n, m)", "vf_two(n, m)", "vf_loop(m)", "clz32(n)", "clo32(m)", "fbrev(n)", "revbit32(m)",
              "conv_round(n, 2)", "vf_id_int8_t(n)", "vf_conv_int16_t_uint64_t(m)"]
 
